@@ -83,6 +83,19 @@ theorem xml_keep_reproduces {a b : XNd} {k : XKind} {subs : List XScript} (h : X
   have h := (h hk).2
   simp only [xkeepFrom, xkeepTo, h.1, h.2, pick_ixRange, and_self]
 
+-- [audit] non-vacuity of `xml_keep_reproduces`: `<a>x</a>` → `<a/>` (text removed): a concrete `XLocalAcc` instance
+def auditXa : XTree := .mk [97] (.dict []) (some [120]) []
+def auditXb : XTree := .mk [97] (.dict []) none []
+def auditXsubs : List XScript :=
+  (elemScript (mkMatch 0) (mkMatch 0) (textEdit (some [120]) none) 3 2 (xMatch 0)).subs
+-- [audit] non-vacuity
+theorem audit_xLocalAcc : XLocalAcc (.elem auditXa) (.elem auditXb) .elem auditXsubs := by
+  intro _; exact ⟨trivial, by decide +kernel⟩
+-- [audit] non-vacuity
+example : xkeepFrom (.elem auditXa) auditXsubs = (XNd.elem auditXa).children ∧
+    xkeepTo (.elem auditXb) auditXsubs = (XNd.elem auditXb).children :=
+  xml_keep_reproduces audit_xLocalAcc rfl
+
 /-! ### non-vacuity and concrete instances -/
 
 /-- the hypothesis is satisfiable by a non-trivial document … -/
